@@ -541,8 +541,7 @@ def mir_dump(cfg):
         # panic!("literal") lowers to std's begin_panic in std builds and to core's panic in no_std builds
         line = line.replace("rt::begin_panic::<&str>(", "panic(").replace("panicking::panic(", "panic(")
         line = re.sub(r"^(\s*)let mut (_\d+): !;", r"\1let \2: !;", line)
-        if re.match(r"^(fn|const|static|promoted) ", line) or re.match(r"^// MIR FOR", line):
-            pass
+        line = re.sub(r"\balloc\d+\b", "allocN", line)  # allocation ids shift with every extra item
         if re.match(r"^(fn |const |static |promoted\[)", line.strip()) and not line.startswith(" "):
             if name:
                 fns.setdefault(name, []).append("\n".join(body))
@@ -566,6 +565,15 @@ def mir_config_diff():
             if re.match(r"^fn arithmetic::fma\(", k):
                 continue
             diff.append(k)
+    # the one body that may differ must be exactly a single call of the platform fma resp. libm::fma
+    for cfg, fns, callee in (("std", a, r"f64::<impl f64>::mul_add"), ("nostd", b, r"libm::fma")):
+        bodies = [v for k, v in fns.items() if re.match(r"^fn arithmetic::fma\(", k)]
+        ok = False
+        if len(bodies) == 1 and len(bodies[0]) == 1:
+            assigns = [l.strip() for l in bodies[0][0].splitlines() if re.match(r"^\s*_\d+ = ", l) or "switchInt" in l or "goto" in l]
+            ok = len(assigns) == 1 and re.match(r"^_0 = %s\(copy _1, copy _2, copy _3\) -> \[return: bb1, unwind continue\];$" % callee, assigns[0]) is not None
+        if not ok:
+            diff.append("fn arithmetic::fma [%s configuration]: body is not the single call %s(x, y, z)" % (cfg, callee))
     return (not diff), diff, len(a)
 
 
